@@ -2,9 +2,9 @@ package chainsim
 
 import (
 	"fmt"
-	"strings"
 	"math/big"
 	"math/rand/v2"
+	"strings"
 
 	"github.com/cometbft/cometbft/abci/types"
 
@@ -817,7 +817,7 @@ func (g *TxGen) Next(height int64) []*GenTx {
 					continue
 				}
 				// runtime support: some compute-only nodes are allowed to expire.
-				if n.IsCompute() && n.Roles&node.RoleValidator == 0 && g.rng.IntN(10) == 0 {
+				if n.IsCompute() && n.Roles&node.RoleValidator == 0 && (g.rng.IntN(10) == 0 || (g.h.Cfg.Profile == "runtime" && g.rng.IntN(4) == 0)) {
 					continue
 				}
 				add(g.renewNode(n, 0))
@@ -885,6 +885,25 @@ func (g *TxGen) Next(height int64) []*GenTx {
 	if len(out) > 2 && g.rng.IntN(6) == 0 {
 		i, j := g.rng.IntN(len(out)), g.rng.IntN(len(out))
 		out[i], out[j] = out[j], out[i]
+	}
+	// Debonding storm: every delegator of one escrow account (the account itself included)
+	// reclaims in the same block, so several debonding delegations of one pool complete in the
+	// same epoch transition.
+	if len(g.h.Sc.Entities) > 2 && g.rng.IntN(10) == 0 {
+		v := g.h.Sc.Entities[2+g.rng.IntN(len(g.h.Sc.Entities)-2)]
+		for _, a := range g.h.Sc.Signers {
+			for _, d := range g.h.delegationsOf(a.Addr) {
+				if d.escrow != v.Addr || d.shares.IsZero() || g.rng.IntN(5) == 0 {
+					continue
+				}
+				sh := d.shares
+				if g.rng.IntN(2) == 0 {
+					sh = g.amount(&d.shares)
+				}
+				tx := staking.NewReclaimEscrowTx(g.nonce(a), g.feeSure(2000), &staking.ReclaimEscrow{Account: v.Addr, Shares: sh})
+				add(g.finish(a, tx, "debond-storm"))
+			}
+		}
 	}
 	if g.Extra != nil {
 		out = append(out, g.Extra(g, height, out)...)
